@@ -102,9 +102,28 @@ class Loop:
             slot_of[(p[1], p[2])] = repr((p[1], p[2]))
         head = State(self.nxt.mem, self.nxt.facts)
         ev = []
+        owners_ = owner_adts(a.db)
+
+        def cursor_slot(c):
+            """`owner.storage.add(owner.cursor)` for a tracked owner LOCAL: the slot its own cursor designates at this call."""
+            p = c.args[0]
+            if not (p[0] == "P" and isinstance(p[1], tuple) and len(p[1]) == 3 and p[1][0] == "field" and p[1][1][0] == "local" and len(p[1][2]) == 1):
+                return None
+            adt = local_adt(a, p[1][1][1])
+            o = owners_.get(adt)
+            if o is None or o["array_is_ref"] or p[1][2][0] != o["array"] or not c.targs:
+                return None
+            S_ = a.tenv.size(c.targs[0])
+            for fpos in o["pos"]:
+                v = a.read_cell(State(c.mem, c.facts), p[1][1], (fpos,), {"k": "prim", "n": "usize"})
+                if v[0] == "I" and S_ is not None and p[2] == v[1] * S_:
+                    return repr(("cur", p[1][1], fpos))
+            return None
         for c in self.calls():
             kind = None
-            if c.fn in ("core::ptr::read", "core::ptr::read_unaligned") and c.args[0][0] == "P" and (c.args[0][1], c.args[0][2]) in slot_of:
+            if c.fn in ("core::ptr::read", "core::ptr::read_unaligned", "core::ptr::write", "core::mem::MaybeUninit::<T>::write") and c.args[0][0] == "P" and cursor_slot(c) is not None:
+                kind, data = ("read" if "read" in c.fn else "write"), cursor_slot(c)
+            elif c.fn in ("core::ptr::read", "core::ptr::read_unaligned") and c.args[0][0] == "P" and (c.args[0][1], c.args[0][2]) in slot_of:
                 kind, data = "read", slot_of[(c.args[0][1], c.args[0][2])]
             elif c.fn in ("core::ptr::write", "core::mem::MaybeUninit::<T>::write") and c.args[0][0] == "P" and (c.args[0][1], c.args[0][2]) in slot_of:
                 kind, data = "write", slot_of[(c.args[0][1], c.args[0][2])]
@@ -233,7 +252,41 @@ def link_loop(ctx, cfg, body, lp, info, role, rule):
                     src_ok = arrp is not None and arrp[0] == "P" and arrp[1] in slice_bases
                 else:
                     src_ok = ("field", obase, (o["array"],)) in slice_bases
-                det = "position field '%s' of owner %s; slots iterate that owner's storage: %s" % (o["names"][fidx], adt.split("::")[-1], src_ok)
+                if not src_ok and repr(("cur", obase, fidx)) in info["slots"]:
+                    # slots designated by this owner's own cursor: they are its storage by construction; what remains is that the cursor cannot run
+                    # past the storage - the loop is driven by a range lo..hi, cursor and index advance together by one per step, so the cursor
+                    # stays below N when  cursor_at_entry - lo + hi <= N
+                    from .rules import pipe_max
+                    from .poly import prove
+                    steps = pipe_max(a, lp.pipe)
+                    v0 = None
+                    cands = [x["val"] for x in a.assigns + a.stores if x["cell"] == (obase, (fidx,)) and x["site"][0] not in lp.blocks and a.dominates(x["site"][0], lp.nxt.bb)]
+                    whole = [x["val"] for x in a.assigns if x["cell"] == (obase, ()) and x["val"][0] == "A" and x["site"][0] not in lp.blocks and a.dominates(x["site"][0], lp.nxt.bb)]
+                    for c_ in a.calls:
+                        if c_.term.get("dest") and c_.term["dest"]["l"] == obase[1] and not c_.term["dest"]["p"] and c_.ret is not None and c_.ret[0] == "A" and a.dominates(c_.bb, lp.nxt.bb):
+                            whole.append(c_.ret)
+                    vals = [v[1] for v in cands if v[0] == "I"] + [w[2][fidx][1] for w in whole if fidx < len(w[2]) and w[2][fidx][0] == "I"]
+                    if vals and all(v == vals[0] for v in vals):
+                        v0 = vals[0]
+                    lt = a.local_ty(obase[1]) if obase[0] == "local" else None
+                    N_ = a.tenv.length([x for x in lt["args"] if x.get("k") != "region"][-1]) if lt else None
+                    # the by-value iterator's invariant index <= index_back <= N (established and preserved: C06.I) may bound the step count
+                    inv = []
+                    for ai in range(1, a.mir["arg_count"] + 1):
+                        from .tys import pointee as _pt
+                        t_ = a.local_ty(ai)
+                        t_ = _pt(t_) if t_ is not None and t_.get("k") == "ref" else t_
+                        if t_ is not None and t_.get("k") == "adt" and t_["def"] in owners and "index" in owners[t_["def"]]["names"]:
+                            oo = owners[t_["def"]]
+                            lo_ = Poly.atom(("cell", (("arg", ai), (oo["names"].index("index"),))))
+                            hi_ = Poly.atom(("cell", (("arg", ai), (oo["names"].index("index_back"),))))
+                            Nn = a.tenv.length([x for x in t_["args"] if x.get("k") != "region"][-1])
+                            inv += [(">=", hi_ - lo_), (">=", Nn - hi_), (">=", lo_)]
+                    room = steps is not None and v0 is not None and N_ is not None and prove((">=", N_ - v0 - steps), a.poly_facts(lp.nxt.facts) + inv)
+                    src_ok = bool(room)
+                    det = "cursor field '%s' of owner %s, whose own storage the slots are; at most %r steps from cursor %r with %r slots: %s" % (o["names"][fidx], adt.split("::")[-1], steps, v0, N_, bool(room))
+                else:
+                    det = "position field '%s' of owner %s; slots iterate that owner's storage: %s" % (o["names"][fidx], adt.split("::")[-1], src_ok)
                 if obase[0] == "local":
                     live = True
                     for e, st in info["at_foreign"]:
